@@ -99,21 +99,27 @@ theorem enterSymbol_constPres (st : St) (n : Name) (v : Int) (mc : Bool) (res : 
   repeat' split
   all_goals ((repeat (apply enterTree_constPres2)); exact ConstPres.refl _)
 
-theorem chkTmpDef_tab (st : St) (n : Name) : (chkTmpDef st n).1.tab = st.tab := by
-  unfold chkTmpDef
-  try dsimp only
+theorem chkTmp3_tab (st : St) (n : Name) (src : SymSource) : (chkTmp3 st n src).1.tab = st.tab := by
+  unfold chkTmp3
   repeat' split
   all_goals rfl
 
-theorem defineSymbol_constPres (st : St) (n : Name) (v : Int) (mc : Bool) : ConstPres st.tab (defineSymbol st n v mc).tab := by
+theorem chkTmpDef_tab (st : St) (n : Name) (src : SymSource) : (chkTmpDef st n src).1.tab = st.tab := by
+  unfold chkTmpDef
+  try dsimp only
+  repeat' split
+  all_goals (first | rfl | exact chkTmp3_tab _ _ _)
+
+theorem defineSymbol_constPres (st : St) (n : Name) (v : Int) (mc : Bool) (src : SymSource) :
+    ConstPres st.tab (defineSymbol st n v mc src).tab := by
   unfold defineSymbol
   cases hgs : getSymSection st n with
   | invName => exact ConstPres.refl _
   | invSection => exact ConstPres.refl _
   | plain n' =>
-    cases hc : chkTmpDef st n' with
+    cases hc : chkTmpDef st n' src with
     | mk st1 n1 =>
-      have h1 := chkTmpDef_tab st n'
+      have h1 := chkTmpDef_tab st n' src
       rw [hc] at h1
       have h := enterSymbol_constPres st1 n1 v mc (-2)
       simp only at h1
@@ -121,9 +127,9 @@ theorem defineSymbol_constPres (st : St) (n : Name) (v : Int) (mc : Bool) : Cons
       simp only [hc]
       exact h
   | sect n' h' =>
-    cases hc : chkTmpDef st n' with
+    cases hc : chkTmpDef st n' src with
     | mk st1 n1 =>
-      have h1 := chkTmpDef_tab st n'
+      have h1 := chkTmpDef_tab st n' src
       rw [hc] at h1
       have h := enterSymbol_constPres st1 n1 v mc h'
       simp only at h1
@@ -277,12 +283,38 @@ theorem popSymbol_constPres (st : St) (sym stk : Name) : ConstPres st.tab (popSy
           · rw [htab, tfind_tset_other _ _ _ _ hkk]
             exact hk
 
+theorem codeEnum_constPres (st : St) (items : List (Name × Option Int)) : ConstPres st.tab (codeEnum st items).tab := by
+  unfold codeEnum
+  induction items generalizing st with
+  | nil => exact ConstPres.refl _
+  | cons it r ih =>
+    simp only [List.foldl_cons]
+    refine ConstPres.trans ?_ (ih _)
+    exact defineSymbol_constPres { st with enumCur := it.2.getD st.enumCur } it.1 _ false .define
+
 theorem step_constPres (st : St) (op : Op) (h : op.isPopv = false) : ConstPres st.tab (step st op).tab := by
   cases op with
   | section_ n => simp only [step]; rw [codeSection_tab]; exact ConstPres.refl _
   | endsection a => simp only [step]; rw [codeEndSection_tab]; exact ConstPres.refl _
-  | define n v mc => simp only [step]; exact defineSymbol_constPres { st with line := st.line + 1 } _ _ _
-  | label n => simp only [step]; exact defineSymbol_constPres { st with line := st.line + 1 } _ _ _
+  | define n v mc => simp only [step]; exact defineSymbol_constPres { st with line := st.line + 1 } _ _ _ _
+  | label n => simp only [step]; exact defineSymbol_constPres { st with line := st.line + 1 } _ _ _ _
+  | labelOnly n => simp only [step]; exact defineSymbol_constPres { st with line := st.line + 1 } _ _ _ _
+  | labelPc n => simp only [step]; exact defineSymbol_constPres { st with line := st.line + 1 } _ _ _ _
+  | labelWord n r =>
+    simp only [step, emitWord]
+    have h1 := defineSymbol_constPres { st with line := st.line + 1 } n ({ st with line := st.line + 1 } : St).pc false .label
+    have := lookupSymbol_tab (defineSymbol { st with line := st.line + 1 } n ({ st with line := st.line + 1 } : St).pc false .label) r
+    intro k v hk
+    simp only [ConstAt] at hk ⊢
+    rw [this]
+    exact h1 k v hk
+  | enum_ next items =>
+    simp only [step]
+    cases next with
+    | true => simp only [if_true]; exact codeEnum_constPres { st with line := st.line + 1 } _
+    | false =>
+      simp only [Bool.false_eq_true, if_false]
+      exact codeEnum_constPres { st with line := st.line + 1, enumCur := 0 } _
   | use r =>
     simp only [step, emitWord]
     have := lookupSymbol_tab { st with line := st.line + 1 } r
@@ -389,6 +421,29 @@ theorem getStack_setStack_other (s : List (Name × List Int)) (k k2 : Name) (c :
   split
   · exact getStack_filter_other s k k2 h
   · exact getStack_insStack_other s k k2 c h
+
+/-! ### the stand-in for the SHA-1 suffix of `$$` names is injective on byte strings -/
+
+theorem hexDigit_pair_inj (a b : Nat) (ha : a < 256) (hb : b < 256)
+    (h1 : hexDigit (a / 16 % 16) = hexDigit (b / 16 % 16)) (h2 : hexDigit (a % 16) = hexDigit (b % 16)) : a = b := by
+  unfold hexDigit at h1 h2
+  split at h1 <;> split at h1 <;> split at h2 <;> split at h2 <;> omega
+
+theorem hashName_inj (a b : Name) (ha : ∀ c ∈ a, c < 256) (hb : ∀ c ∈ b, c < 256) (h : hashName a = hashName b) : a = b := by
+  induction a generalizing b with
+  | nil =>
+    cases b with
+    | nil => rfl
+    | cons y s => simp [hashName] at h
+  | cons x r ih =>
+    cases b with
+    | nil => simp [hashName] at h
+    | cons y s =>
+      simp only [hashName, List.flatMap_cons, List.cons_append, List.nil_append, List.cons.injEq] at h
+      obtain ⟨h1, h2, h3⟩ := h
+      have hxy := hexDigit_pair_inj x y (ha x (by simp)) (hb y (by simp)) h1 h2
+      have := ih s (fun c hc => ha c (by simp [hc])) (fun c hc => hb c (by simp [hc])) h3
+      rw [hxy, this]
 
 /-! ### section table -/
 
